@@ -149,8 +149,9 @@ def cases(tier):
                 for s2 in ([['D', 1]], [['D', 3]], [['GE', 2], ['D', 1]], [['ETERNITY']]):
                     progs.append({'start': st, 'till': till, 'roots': [['a', s1], ['b', s2]]})
     # family J: very short delays, dates and periods (a wait of 2**-32 is a wait, not "no time")
-    for tiny in (2.0 ** -32, 2.0 ** -40):
-        for st in (0, 3):
+    # (the last pair: delays below the resolution of the clock value - now + d == now - are valid and take no time)
+    for tiny, starts_ in ((2.0 ** -32, (0, 3)), (2.0 ** -40, (0, 3)), (1e-9, (10 ** 9, 1e9))):
+        for st in starts_:
             others = [[['D', tiny]], [['D', tiny], ['D', tiny]], [['EQ', 2 * tiny]], [['GE', tiny], ['INSTANT']], [['D', 1]]]
             for s1 in ([['INTERVAL', tiny, 3, [[], [], []]]], [['DELAYLOOP', tiny, 3, [[], [], []]]],
                        [['INTERVAL', tiny, 3, [[['INSTANT']], [], [['D', tiny / 2]]]]], [['D', tiny], ['EQ', 3 * tiny]],
